@@ -777,7 +777,12 @@ def check_C06(ctx):
     ctx.cov["rule"] = FRAME_RULE
     ctx.assumptions = ["order among equal priorities is unspecified (container/heap): the monitor checks non-increasing pop priorities",
                        "the frame after a lazy change is unspecified"]
-    frames_check(ctx, {"HM_POP", "HM_FIX", "CT_ADD", "OUT_ORDER", "CT_FLUSHBAR"}, M.c06_monitor, 200, 6000, CONT_DEPS | {"Props/C06.v"})
+    ctx.cov["rule"] += ("; pq family: random pushes / pops / immediate and lazy fixes on the heap manager's priority queue, slice order "
+                        "and index fields compared with the model after every operation (priorities from a small range: many ties)")
+    frames_check(ctx, {"HM_POP", "HM_FIX", "CT_ADD", "OUT_ORDER", "CT_FLUSHBAR"}, M.c06_monitor, 200, 6000,
+                 CONT_DEPS | PQ_DEPS | {"Props/C06.v"})
+    if ctx.harness:
+        pq_check(ctx, set())
 
 
 @check
@@ -1283,10 +1288,12 @@ def check_C02(ctx):
                        "a panic or a hang is observed, not excluded by proof; the theorems cover the select shapes, the exited bar and the "
                        "heap manager's end"]
     sigs = set()
-    frames_check(ctx, {"LATE_WRITE", "LATE_ADD", "HM_END", "HM_PUSH"}, M.c02_monitor, 200, 6000, LIFE_DEPS | {"Props/C02.v"}, fams=ALLFAMS)
+    frames_check(ctx, {"LATE_WRITE", "LATE_ADD", "HM_END", "HM_PUSH"}, M.c02_monitor, 200, 6000,
+                 LIFE_DEPS | PQ_DEPS | {"Props/C02.v"}, fams=ALLFAMS)
     if ctx.harness:
         if late_check(ctx, True, sigs):
             ctx.notes.append("late family reported")
+        pq_check(ctx, sigs)
 
 
 @check
@@ -1299,3 +1306,49 @@ def check_C01(ctx):
                  LIFE_DEPS | {"Props/C01.v"}, fams=ALLFAMS)
     if ctx.harness:
         late_check(ctx, False, sigs)
+
+
+
+# ---------------------------------------------------------------- priority queue (C06, C02)
+PQ_DEPS = {"Base.v", "PQueue.v", "PQueueProofs.v"}
+
+
+def pq_check(ctx, sigs):
+    """differential: slice order and index fields after every heap operation"""
+    runs = []
+    if ctx.replay:
+        rp = json.load(open(ctx.replay))
+        if rp.get("family") != "pq":
+            return False
+        sc = write_script(ctx, "replay_pq.txt", rp["case"])
+        runs.append(ctx.run_family("pq", 0, extra=sc, tag=".replay"))
+    elif ctx.tier == "quick":
+        runs.append(ctx.run_family("pq", 400))
+    else:
+        for i in range(4):
+            runs.append(ctx.run_family("pq", 5000, seed=ctx.seed * 1000 + i))
+    found = False
+    for run in runs:
+        if run["rc"] != 0:
+            ctx.add_violation("pq run failed (panic in the queue?): " + run["log"][-1500:], "pq-run-failed",
+                              {"family": "pq", "run_seed": run["seed"], "n": run["n"]})
+            found = True
+            continue
+        impl = group_obs(read_lines(os.path.join(run["dir"], "impl.txt")))
+        model = group_obs(read_lines(os.path.join(run["dir"], "model.txt")))
+        cases = group_cases(read_lines(os.path.join(run["dir"], "cases.txt")))
+        for k in sorted(cases):
+            ctx.cov["evaluations"] += 1
+            ctx.cov["traces_validated_against_impl"] += 1
+            ctx.distinct(("pq",) + tuple(cases[k][1:]))
+            if impl.get(k, []) != model.get(k, []):
+                a, b = impl.get(k, []), model.get(k, [])
+                first = next((i for i in range(min(len(a), len(b))) if a[i] != b[i]), min(len(a), len(b)))
+                sig = "pq-mismatch"
+                if sig not in sigs:
+                    sigs.add(sig)
+                    ctx.add_violation("priority queue: implementation and model differ at step %d: impl %s / model %s"
+                                      % (first, a[first] if first < len(a) else None, b[first] if first < len(b) else None), sig,
+                                      {"family": "pq", "run_seed": run["seed"], "n": run["n"], "k": k, "case": cases[k]})
+                found = True
+    return found
